@@ -902,6 +902,24 @@ static int qm_sorted(qmodel *m)
     }
     return 1;
 }
+/* Indices "beyond the end" that are not simply num, num + 1 or SIZE_MAX: every one of them is >= num, so insert appends and remove
+   takes the last element.  An index converted to a signed or narrower type on the way aliases an in-range position for exactly
+   these values: SIZE_MAX - j is -(j + 1) as a_diff (seeded change C05-I: a_que_remove through the signed a_que_at takes the
+   (j+1)-th element from the back), 2^63 + j is the most negative a_diff plus j, 2^32 + j is j in 32 bits. */
+static size_t far_index(vf_rng *r, size_t n)
+{
+    size_t const j = (size_t)vf_below(r, n + 2);
+    VF_COUNT("index-far-beyond-the-end");
+    switch ((int)vf_below(r, 6))
+    {
+    case 0: return SIZE_MAX;
+    case 1: return SIZE_MAX - j;
+    case 2: return ((size_t)1 << (sizeof(size_t) * 8 - 1)) + j;
+    case 3: return ((size_t)1 << (sizeof(size_t) * 8 - 1)) - 1 - j;
+    case 4: return ((size_t)1 << (sizeof(size_t) * 4)) + j;
+    default: return SIZE_MAX - (n ? n - 1 : 0) + (vf_chance(r, 1, 2) ? 0 : 1);
+    }
+}
 static size_t q_index(vf_rng *r, size_t n, int *cls)
 {
     int c = (int)vf_below(r, 7);
@@ -913,7 +931,7 @@ static size_t q_index(vf_rng *r, size_t n, int *cls)
     case 2: return n ? n - 1 : 0;
     case 3: return n;
     case 4: return n + 1;
-    case 5: return SIZE_MAX;
+    case 5: return far_index(r, n);
     default: return (size_t)vf_below(r, n + 2);
     }
 }
@@ -3635,7 +3653,7 @@ static size_t lq_idx(vf_rng *r, size_t n, int *cls)
     {
     case 0: *cls = 7; return n;
     case 1: *cls = 8; return n + 1;
-    case 2: *cls = 9; return SIZE_MAX;
+    case 2: *cls = 9; return far_index(r, n);
     default: return n ? lg_pos(r, n, cls) : 0;
     }
 }
